@@ -428,22 +428,39 @@ def inferErr : InferErr → Err
   | .collect .unorderable => .typeError
   | .noneNotIterable => .typeError
 
+/-- `optimise_imports(chain(*map(infer_imports, functions_and_classes)))` when `--emit-and-infer-imports` is given -/
+def inferStep (cfg : Cfg) (syms : List Stmt) : Except Err (List Imp) :=
+  if cfg.inferImports then
+    (match inferred cfg.tables syms with
+     | .ok l => .ok l
+     | .error e => .error (inferErr e))
+  else .ok []
+
+/-- the statements of `--prepend`; a text without a final newline is glued to the import line (outside the model) -/
+def prependStep (cfg : Cfg) (hdr : List Stmt) : Except Err (List Stmt) :=
+  match cfg.prepend with
+  | Option.none => .ok []
+  | some (stmts, complete) =>
+    if !complete && !hdr.isEmpty then .error (.outside "--prepend without a final newline is glued to the import line")
+    else .ok stmts
+
+/-- `ast.parse(content)`: a generated name that is no identifier does not parse -/
+def badNames (syms : List Stmt) : Bool :=
+  syms.any (fun s => match stmtSymbol? s with | some n => !isPyName n.toList | Option.none => false)
+
 /-- the module `gen_module` returns for already emitted symbols -/
-def assemble (cfg : Cfg) (syms : List Stmt) (all : List Str) : Except Err (List Stmt) := do
-  let inf ← if cfg.inferImports then
-      (match inferred cfg.tables syms with
-       | .ok l => pure l
-       | .error e => throw (inferErr e))
-    else pure []
-  let hdr ← headerImports (cfg.fileImports.getD []) inf
-  let pre ← match cfg.prepend with
-    | Option.none => pure []
-    | some (stmts, complete) =>
-      if !complete && !hdr.isEmpty then throw (.outside "--prepend without a final newline is glued to the import line")
-      else pure stmts
-  -- `ast.parse(content)`: a generated name that is no identifier does not parse
-  if syms.any (fun s => match stmtSymbol? s with | some n => !isPyName n.toList | Option.none => false) then throw .syntaxError
-  pure (reorder (pre ++ hdr ++ syms ++ [allStmt (all.map allEntry)]))
+def assemble (cfg : Cfg) (syms : List Stmt) (all : List Str) : Except Err (List Stmt) :=
+  match inferStep cfg syms with
+  | .error e => .error e
+  | .ok inf =>
+    match headerImports (cfg.fileImports.getD []) inf with
+    | .error e => .error e
+    | .ok hdr =>
+      match prependStep cfg hdr with
+      | .error e => .error e
+      | .ok pre =>
+        if badNames syms then .error .syntaxError
+        else .ok (reorder (pre ++ hdr ++ syms ++ [allStmt (all.map allEntry)]))
 
 /-- the `$id`s of `json_schema_file`'s output and whether they are wrapped in `{"schemas": [...]}` -/
 structure JsonOut where
